@@ -10,7 +10,7 @@ namespace MjProof.CType
 /-- no `(` is followed (anywhere later) by a `)` -/
 def noOC : Str → Bool
   | [] => true
-  | c :: cs => (if c = '(' then !cs.contains ')' else true) && noOC cs
+  | c :: cs => (if c = 40 then !cs.contains 41 else true) && noOC cs
 
 theorem noOC_special : noOC special = false := by decide
 
@@ -22,34 +22,34 @@ theorem noOC_append {a b : Str} (h : noOC (a ++ b) = true) : noOC a = true ∧ n
     obtain ⟨h1, h2⟩ := h
     obtain ⟨i1, i2⟩ := ih h2
     refine ⟨⟨?_, i1⟩, i2⟩
-    by_cases hc : c = '('
+    by_cases hc : c = 40
     · simp only [hc, if_true, Bool.not_eq_true', List.contains_eq_mem, decide_eq_false_iff_not,
         List.mem_append, not_or] at h1 ⊢
       exact h1.1
     · simp [hc]
 
-theorem noOC_of_no_open {s : Str} (h : '(' ∉ s) : noOC s = true := by
+theorem noOC_of_no_open {s : Str} (h : 40 ∉ s) : noOC s = true := by
   induction s with
   | nil => rfl
   | cons c cs ih =>
-    have hc : c ≠ '(' := fun e => h (by simp [e])
+    have hc : c ≠ 40 := fun e => h (by simp [e])
     simp [noOC, hc, ih (fun m => h (by simp [m]))]
 
-theorem noOC_of_no_close {s : Str} (h : ')' ∉ s) : noOC s = true := by
+theorem noOC_of_no_close {s : Str} (h : 41 ∉ s) : noOC s = true := by
   induction s with
   | nil => rfl
   | cons c cs ih =>
-    have hcs : ')' ∉ cs := fun m => h (by simp [m])
+    have hcs : 41 ∉ cs := fun m => h (by simp [m])
     simp only [noOC, Bool.and_eq_true, ih hcs, and_true]
-    by_cases hc : c = '('
+    by_cases hc : c = 40
     · simp [hc, hcs]
     · simp [hc]
 
-theorem noOC_pre_suf {pre suf : Str} (h1 : '(' ∉ pre) (h2 : ')' ∉ suf) : noOC (pre ++ suf) = true := by
+theorem noOC_pre_suf {pre suf : Str} (h1 : 40 ∉ pre) (h2 : 41 ∉ suf) : noOC (pre ++ suf) = true := by
   induction pre with
   | nil => exact noOC_of_no_close h2
   | cons c cs ih =>
-    have hc : c ≠ '(' := fun e => h1 (by simp [e])
+    have hc : c ≠ 40 := fun e => h1 (by simp [e])
     simp [noOC, hc, ih (fun m => h1 (by simp [m]))]
 
 theorem noOC_lstrip {s : Str} (h : noOC s = true) : noOC (lstrip s) = true := by
@@ -69,7 +69,7 @@ theorem noOC_strip {s : Str} (h : noOC s = true) : noOC (strip s) = true :=
 
 /-! ### facts about the pieces -/
 
-theorem splitFirst_not_mem {c : Char} {s pre rest : Str} (h : splitFirst c s = some (pre, rest)) : c ∉ pre := by
+theorem splitFirst_not_mem {c : Ch} {s pre rest : Str} (h : splitFirst c s = some (pre, rest)) : c ∉ pre := by
   induction s generalizing pre with
   | nil => simp [splitFirst] at h
   | cons x xs ih =>
@@ -87,7 +87,7 @@ theorem splitFirst_not_mem {c : Char} {s pre rest : Str} (h : splitFirst c s = s
       · exact hx e.symm
       · exact ih hp hm
 
-theorem splitLast_not_mem {c : Char} {s pre post : Str} (h : splitLast c s = some (pre, post)) : c ∉ post := by
+theorem splitLast_not_mem {c : Ch} {s pre post : Str} (h : splitLast c s = some (pre, post)) : c ∉ post := by
   induction s generalizing pre with
   | nil => simp [splitLast] at h
   | cons x xs ih =>
@@ -149,7 +149,7 @@ theorem findArr_spec {s pre : Str} {g : List Str} (h : findArr s = some (pre, g)
       simp only [Option.some.injEq, Prod.mk.injEq] at h
       refine ⟨⟨c :: cs, by rw [← h.1]; rfl⟩, ?_⟩
       rw [← h.2]
-      by_cases hc : c = '['
+      by_cases hc : c = 91
       · simp only [hc, if_true] at hg
         exact groups_ne_nil _ _ _ hg
       · simp [hc] at hg
@@ -175,9 +175,9 @@ theorem mapMOpt_ne_nil {α β : Type} (f : α → Option β) : ∀ (l : List α)
 /-! ### results of the parser are well formed -/
 
 theorem wfName_of_valid {ws : List Str} (hv : validWords ws = true) (hc : kConst ∉ ws) (hvol : kVolatile ∉ ws) :
-    wfName (String.ofList (joinSp ws)) = true := by
+    wfName (joinSp ws) = true := by
   obtain ⟨_, hclean⟩ := validWords_clean hv
-  simp only [wfName, String.toList_ofList, splitWs_joinSp ws hclean, hv, beq_self_eq_true, Bool.true_and,
+  simp only [wfName, splitWs_joinSp ws hclean, hv, beq_self_eq_true, Bool.true_and,
     Bool.and_eq_true, Bool.not_eq_true', List.contains_eq_mem, decide_eq_false_iff_not]
   exact ⟨hc, hvol⟩
 
@@ -283,7 +283,7 @@ theorem parseNest_wf : ∀ f s acc t, parseNest f s acc = some t → (∀ i, acc
         split at h
         · simp at h
         · rename_i hc
-          have hcl : ')' ∉ s := by simpa using hc
+          have hcl : 41 ∉ s := by simpa using hc
           exact Or.inl (parseLevel_wf h (noOC_of_no_close hcl) hacc)
       · rename_i pre rest hsf
         split at h
